@@ -536,6 +536,37 @@ def main():
         w("")
     guarded("PointProjection", projection)
 
+    # --- exact tests for collinear points (used by the line iterator)
+    def collinear():
+        params, body = find_fn(math, "is_collinear_point_on_segment")
+        m = re.match(r"\s*let\s+is_between\s*=\s*\|a:\s*S,\s*b:\s*S,\s*x:\s*S\|\s*(.*?);\s*(.*)$", body, re.S)
+        if not m:
+            raise ValueError("is_collinear_point_on_segment: unexpected shape")
+        pn = [q.split(":")[0].strip() for q in params.split(",") if q.strip()]
+        if pn != ["p1", "p2", "query_point"]:
+            raise ValueError("is_collinear_point_on_segment: unexpected parameters")
+        emc = Emit({"a": "a", "b": "b", "x": "x"})
+        w("/-- the closure `is_between` of `math::is_collinear_point_on_segment` -/")
+        w(f"def is_between (a b x : Int) : Bool := {emc.e(parse_expr(m.group(1)))}")
+        env = {f"{p}.{c}": f"{p}.{c}" for p in pn for c in "xy"}
+        em = Emit(env, calls={"is_between": "is_between"})
+        w("/-- `math::is_collinear_point_on_segment` -/")
+        w(f"def is_collinear_point_on_segment (p1 p2 query_point : Pt) : Bool := {em.e(parse_expr(m.group(2)))}")
+        params, body = find_fn(math, "is_collinear_point_before_segment")
+        pn2 = [q.split(":")[0].strip() for q in params.split(",") if q.strip()]
+        if pn2 != ["p1", "p2", "query_point"]:
+            raise ValueError("is_collinear_point_before_segment: unexpected parameters")
+        branches, last = parse_if_chain(body)
+        if not branches:
+            raise ValueError("is_collinear_point_before_segment: unexpected shape")
+        w("/-- `math::is_collinear_point_before_segment` -/")
+        w("def is_collinear_point_before_segment (p1 p2 query_point : Pt) : Bool :=")
+        for c, r in branches:
+            w(f"  if {em.e(c)} then {em.e(parse_expr(r))} else")
+        w(f"  {em.e(parse_expr(last))}")
+        w("")
+    guarded("collinear", collinear)
+
     # --- triangulation.rs size functions
     def sizes():
         def body_of(n):
